@@ -438,6 +438,7 @@ class Scenario:
         try:
             for i, op in enumerate(self.script['ops']):
                 self.op_index = i
+                self.trace.append(['op', i])
                 self.run_op(op)
                 if self.opts.get('instrument'):
                     self.observe_all(op)
@@ -944,6 +945,12 @@ class Scenario:
                 self.deferred.append((oi.idx, False, self.dtor_stack[-1]))
             return
         dead = oi.destroyed or oi.unwrapped
+        if not got_some and not dead and 'C11' in self.oracles and getattr(self, 'last_panic', None) is not None:
+            # after an interrupted teardown, members that were marked dead but whose destructor never ran may be
+            # leaked (C11 allows the leak) as long as the program cannot reach them
+            r = self.reach_formula(oi.idx)
+            if r is False or (r is not True and not self.E.check(r)):
+                return
         if got_some and dead:
             raise Violation('C05', 'upgrade-resurrects', 'Weak::upgrade returned a handle to destroyed object %d' % oi.idx,
                             self.model_values(None))
